@@ -30,8 +30,8 @@ func c14Bare(c *rt.C) {
 	}
 	perturb := pick(r, 0, 1, 4)
 	if perturb > 0 {
-		y := yielder(r.Int63(), perturb)
-		skiplist.VerifSetHook(func(id int, arg unsafe.Pointer) { y() })
+		pt := perturber(r.Int63(), perturb)
+		skiplist.VerifSetHook(func(id int, arg unsafe.Pointer) { pt(id) })
 	}
 	defer skiplist.VerifSetHook(nil)
 	for ph := 0; ph < 6 && !c.Failed(); ph++ {
